@@ -289,9 +289,9 @@ def SUM(*args):
 def SUMIF(args, criteria, sum_range=None):
     predicate = utils.parse_criteria(criteria)
     if sum_range is None:
-        return sum(a for a in utils.iflatten(args) if predicate(a))
+        return sum(utils.plain_number(a) for a in utils.iflatten(args) if predicate(a))
     # the cells of sum_range whose partners in the criteria range satisfy the criterion
-    return sum(b for a, b in zip(utils.iflatten(args), utils.iflatten(sum_range)) if predicate(a))
+    return sum(utils.plain_number(b) for a, b in zip(utils.iflatten(args), utils.iflatten(sum_range)) if predicate(a))
 
 
 @dispatcher.register_for('CEILING', 'CEILING.MATH', 'CEILING.PRECISE')
@@ -622,7 +622,7 @@ def SUMIFS(sum_args, *criteria):
         if len(criteria_range) != sum_args_len:
             return error.VALUE
     # summed as SUM sums (the interpreter's compensated sum for floats), not item by item
-    return sum(a for i, a in enumerate(sum_args)
+    return sum(utils.plain_number(a) for i, a in enumerate(sum_args)
                if all(pred(criteria_range[i]) for criteria_range, pred in range_and_preds))
 
 
